@@ -720,6 +720,9 @@ pub fn run(ctx: &Ctx) -> i32 {
             if rf.engine == "tcpe2e" {
                 return replay_one(ctx, &crate::engines::tcpe2e::TcpE2eEngine, &rf);
             }
+            if rf.engine == "bodyadapt" {
+                return replay_one(ctx, &crate::engines::bodyadapt::BodyEngine, &rf);
+            }
             if rf.engine == "makeready" {
                 return replay_one(ctx, &crate::engines::socksrv::MakeReadyEngine, &rf);
             }
@@ -765,6 +768,8 @@ pub fn run(ctx: &Ctx) -> i32 {
                 let tctx = Ctx { threads: 8, ..ctx.clone() };
                 total.merge(run_generated(&tctx, &crate::engines::tcpe2e::TcpE2eEngine, "default-client-over-tcp", crate::engines::tcpe2e::strategy, ctx.cases(150, 6_000), 40));
             }
+            // hyperdriver::Body through each public constructor: http_body contract and end to end
+            total.merge(run_generated(ctx, &crate::engines::bodyadapt::BodyEngine, "body-adapters", crate::engines::bodyadapt::strategy, ctx.cases(4_000, 200_000), 100));
             // pool-level leg: every uncancelled request of a fault-free poolsim history must succeed
             {
                 use crate::engines::poolsim as ps;
